@@ -410,7 +410,30 @@ def popcount_check(rep):
             rep.violation('popcount/sum', f'popcount of a random uint8 array of shape {shape} = {int(kyupy.popcount(a))}, it has {want} one bits', data)
 
 
+def big_mvbp(rep):
+    """beyond the symbolic bound: mv <-> bp conversion of arrays with more than 2^20 values (an implementation may convert in pieces) against the definition - concrete"""
+    rng = np.random.default_rng(9)
+    for shape in ((600, 4003), (3, 300, 1501), (1, 2 ** 20 + 13)):
+        a = rng.integers(0, 8, shape, dtype=np.uint8)
+        bp = logic.mv_to_bp(a)
+        n = shape[-1]; nbytes = (n + 7) // 8
+        rep.counts['concolic_runs'] += 1
+        ok = bp.shape == shape[:-1] + (3, nbytes)
+        if ok:
+            pad = np.zeros(shape[:-1] + (nbytes * 8,), dtype=np.uint8); pad[..., :n] = a
+            for p in range(3):
+                want = np.packbits((pad >> p) & 1, axis=-1, bitorder='little')
+                if not np.array_equal(bp[..., p, :], want): ok = False; break
+            if ok and not np.array_equal(logic.bp_to_mv(bp)[..., :n], a): ok = False
+        if not ok:
+            rep.violation('mvbp/large', f'mv_to_bp / bp_to_mv of a random array of shape {shape}: plane bits are not the value bits of the patterns (pattern p in bit p%8 of byte p//8) or the round trip changes values', {'mode': 'bigmvbp'})
+            return
+
+
 def replay(data):
+    if data['mode'] == 'bigmvbp':
+        r = common.Report(); big_mvbp(r)
+        return bool(r.violations), r.violations[0]['what'] if r.violations else 'ok'
     if data['mode'] == 'string': return replay_string(data)
     if data['mode'] == 'pack': return replay_pack(data)
     if 'random_shape' in data:
@@ -453,6 +476,7 @@ def run(tier, seed):
     if probs: rep.error(f'numpy stub differs from real numpy: {probs[:3]}')
     rep.counts['stub_validations'] += 1
     popcount_check(rep)
+    big_mvbp(rep)
     cov = {
         'states': int(rep.counts['paths']), 'transitions': int(rep.counts['branches']) + int(rep.counts['paths']), 'traces_validated_against_impl': int(rep.counts['concolic_runs']),
         'obligations': int(rep.counts['obligations']), 'discharged': int(rep.counts['discharged']), 'jobs': len(J),
